@@ -32,7 +32,10 @@ for _mname, _ent in sorted(_ci.methods.items()):
         _ens.append((f'{p}-reaches-the-constructor-as-{kw}', f"stub_call_init['kwargs']['{kw}'] is {p}"))
     _ens.append(('nothing-else-is-passed', f"len(stub_call_init['kwargs']) == {len([p for p in _params if p not in NOT_FORWARDED]) + 1}"))
     CONTRACTS[f'LogicalFile.{_mname}[forwarding]'] = dict(
-        target=f'LogicalFile.{_mname}', props=['C05', 'C07'],
+        target=f'LogicalFile.{_mname}', props=['C05', 'C07', 'C20', 'C18'],
+        # frame (C20, C18): apart from fetching the set and building the item, the method writes nothing - neither when it returns
+        # nor when the constructor rejects the call; the logical file, the physical file and every argument object are as at entry
+        modifies=[], exc_modifies=[],
         self_fields={'physical_file': {'cls': 'DLISFile', 'fields': {'_eflr_sets': {'cls': 'EFLRSetsDict', 'fields': {}}}},
                      '_eflr_sets': {'cls': 'EFLRSetsDict', 'fields': {}}, 'default_origin_reference': 'int?'},
         params=_pspec, returns='opq:item',
